@@ -432,7 +432,9 @@ class NamedTupleAdapter(GenericCallAdapter):
                 field: Argument(value=getattr(value, field))
                 for field in value._fields
                 if field not in value._field_defaults
-                or getattr(value, field) != value._field_defaults[field]
+                or not is_default_value(
+                    value._field_defaults[field], getattr(value, field)
+                )
             },
         )
 
